@@ -27,6 +27,8 @@
 #include <new>
 #include <utility>
 
+#include <dispenso/platform.h>
+
 namespace dispenso {
 
 /**
@@ -416,14 +418,31 @@ class SmallVector {
       ptr[i].~T();
     }
     if (!isInline()) {
-      ::operator delete(storage_.heap_.ptr);
+      freeHeap(storage_.heap_.ptr);
+    }
+  }
+
+  // Heap storage must be aligned for T. ::operator new(size) only guarantees the default new
+  // alignment, so over-aligned element types go through the aligned allocator instead.
+  static constexpr bool kOverAligned = alignof(T) > alignof(std::max_align_t);
+
+  static T* allocateHeap(size_type cap) {
+    return kOverAligned ? static_cast<T*>(detail::alignedMalloc(cap * sizeof(T), alignof(T)))
+                        : static_cast<T*>(::operator new(cap * sizeof(T)));
+  }
+
+  static void freeHeap(T* p) noexcept {
+    if (kOverAligned) {
+      detail::alignedFree(p);
+    } else {
+      ::operator delete(p);
     }
   }
 
   // Grow to heap storage with the specified capacity.
   // Moves existing elements, frees old heap if applicable, sets heap bit.
   void growToHeap(size_type newCap) {
-    T* newData = static_cast<T*>(::operator new(newCap * sizeof(T)));
+    T* newData = allocateHeap(newCap);
     T* oldData = data();
     size_type sz = rawSize();
 
@@ -433,7 +452,7 @@ class SmallVector {
     }
 
     if (!isInline()) {
-      ::operator delete(storage_.heap_.ptr);
+      freeHeap(storage_.heap_.ptr);
     }
 
     storage_.heap_.ptr = newData;
